@@ -462,6 +462,26 @@ def translate_invalidate(tree):
     return text, fp(fn)
 
 
+def translate_base_init(tree):
+    fn = find_method(tree, "rrulebase", "__init__")
+    u = ast.unparse
+    if [a.arg for a in fn.args.args] != ["self", "cache"] or len(fn.args.defaults) != 1 or u(fn.args.defaults[0]) != "False":
+        raise U(fn, "rrulebase.__init__: signature")
+
+    def st(s):
+        t = u(s)
+        if isinstance(s, ast.If) and u(s.test) == "cache":
+            return ".ifCacheArg [%s] [%s]" % (", ".join(st(x) for x in s.body), ", ".join(st(x) for x in s.orelse))
+        table = {"self._generation = 0": ".generationZero", "self._cache = []": ".newCache", "self._cache_lock = _thread.allocate_lock()": ".allocLock",
+                 "self._invalidate_cache()": ".callInvalidate", "self._cache = None": ".cacheNone", "self._cache_complete = False": ".completeFalse",
+                 "self._len = None": ".lenNone"}
+        if t in table:
+            return table[t]
+        raise U(s, "rrulebase.__init__: statement")
+    text = "/-- translated from `rrule.py:rrulebase.__init__` -/\ndef baseInitProgram : List CachePy.IStmt :=\n  [%s]\n" % ", ".join(st(s) for s in strip_doc(fn.body))
+    return text, fp(fn)
+
+
 def translate_dunder_iter(tree):
     """`__iter__`: if self._cache_complete: return iter(self._cache) / elif self._cache is None: return self._iter() / else: return self._iter_cached()"""
     fn = find_method(tree, "rrulebase", "__iter__")
@@ -488,7 +508,8 @@ def translate_cache(srcdir):
     n0, f0 = translate_dunder_iter(tree)
     t1 = t1.replace("def iterCachedProgram : List CachePy.Node :=\n  [", "def iterCachedProgram : List CachePy.Node :=\n  [" + ",\n   ".join(n0) + ",\n   ", 1)
     t1 = t1.replace("translated from `rrule.py:rrulebase._iter_cached`", "translated from `rrule.py:rrulebase.__iter__` (the first four nodes) and `rrulebase._iter_cached`")
-    return t1 + "\n" + t2, {"rrulebase.__iter__": f0, "rrulebase._iter_cached": f1, "rrulebase._invalidate_cache": f2}
+    t3, f3 = translate_base_init(tree)
+    return t1 + "\n" + t2 + "\n" + t3, {"rrulebase.__iter__": f0, "rrulebase._iter_cached": f1, "rrulebase._invalidate_cache": f2, "rrulebase.__init__": f3}
 
 
 # ------------------------------------------------------------------ (2) rruleset._genitem and rruleset._iter
@@ -642,6 +663,49 @@ def translate_merge(srcdir):
     out.append("/-- translated from `rrule.py:rruleset._iter` -/\ndef rsetIterProgram : MergePy.IterProg :=\n  { setup := [%s],\n    body := [%s],\n    publishesLenGuarded := true }\n"
                % (", ".join(setup(s) for s in b[:k]), ", ".join(main(s) for s in b[k].body)))
     fps["rruleset._iter"] = fp(fn)
+    # the decorator and the four mutators, rruleset.__init__
+    dec = None
+    for node in tree.body:
+        if isinstance(node, ast.FunctionDef) and node.name == "_invalidates_cache":
+            dec = node
+    if dec is None:
+        raise Untranslatable("rrbase: _invalidates_cache not found")
+    db = strip_doc(dec.body)
+    okd = (len(db) == 2 and isinstance(db[0], ast.FunctionDef) and u(db[1]) == "return inner_func" and db[0].name == "inner_func"
+           and [u(x) for x in db[0].decorator_list] == ["wraps(f)"]
+           and [u(x) for x in strip_doc(db[0].body)] == ["rv = f(self, *args, **kwargs)", "self._invalidate_cache()", "return rv"])
+    if not okd:
+        raise U(dec, "_invalidates_cache")
+    out.append("/-- translated from `rrule.py:_invalidates_cache` -/\ndef invalidatesDecorator : MergePy.DecoratorProg :=\n"
+               "  { callsWrapped := true, thenInvalidates := true, returnsRv := true }\n")
+    fps["_invalidates_cache"] = fp(dec)
+    muts = []
+    for name in ("rrule", "rdate", "exrule", "exdate"):
+        fn = find_method(tree, "rruleset", name)
+        b = strip_doc(fn.body)
+        decos = [u(x) for x in fn.decorator_list]
+        args = [a.arg for a in fn.args.args]
+        okm = (len(args) == 2 and len(b) == 1 and isinstance(b[0], ast.Expr) and isinstance(b[0].value, ast.Call) and isinstance(b[0].value.func, ast.Attribute)
+               and b[0].value.func.attr == "append" and isinstance(b[0].value.func.value, ast.Attribute) and u(b[0].value.func.value.value) == "self"
+               and b[0].value.func.value.attr in roles and len(b[0].value.args) == 1 and u(b[0].value.args[0]) == args[1] and not b[0].value.keywords
+               and decos in ([], ["_invalidates_cache"]))
+        if not okm:
+            raise U(fn, "rruleset.%s" % name)
+        muts.append("{ role := .%s, appendsTo := %s, decorated := %s }" % (name, roles[b[0].value.func.value.attr], "true" if decos else "false"))
+        fps["rruleset.%s" % name] = fp(fn)
+    out.append("/-- translated from `rrule.py:rruleset.rrule / rdate / exrule / exdate` -/\ndef rsetMutators : List MergePy.MutatorProg :=\n  [%s]\n" % ",\n   ".join(muts))
+    fn = find_method(tree, "rruleset", "__init__")
+    b = [u(x) for x in strip_doc(fn.body)]
+    if not b or b[0] != "super(rruleset, self).__init__(cache)" or [a.arg for a in fn.args.args] != ["self", "cache"]:
+        raise U(fn, "rruleset.__init__")
+    lists = []
+    for t in b[1:]:
+        hit = [r for r in roles if t == "self.%s = []" % r]
+        if not hit:
+            raise Untranslatable("rrbase: rruleset.__init__: `%s`" % t)
+        lists.append(roles[hit[0]])
+    out.append("/-- translated from `rrule.py:rruleset.__init__` -/\ndef rsetInit : MergePy.SetInitProg :=\n  { callsBaseInit := true, emptyLists := [%s] }\n" % ", ".join(lists))
+    fps["rruleset.__init__"] = fp(fn)
     return "\n".join(out), fps
 
 
